@@ -37,6 +37,7 @@ type LoopContract struct {
 	Decreases  *Clause
 	Modifies   []*Clause
 	Uses       []*Clause
+	Transitions []*Clause
 }
 
 type FuncContract struct {
@@ -117,7 +118,7 @@ func newContracts() *Contracts {
 var clauseKeywords = map[string]bool{
 	"spec": true, "pred": true, "axiom": true, "ghost": true, "func": true, "requires": true, "ensures": true,
 	"modifies": true, "use": true, "decreases": true, "inline": true, "trusted": true, "loop": true, "end": true,
-	"invariant": true, "package": true, "fnparam": true, "nullable": true, "pure": true, "nobody": true, "gaxiom": true, "useret": true, "implements": true, "define": true,
+	"invariant": true, "package": true, "fnparam": true, "nullable": true, "pure": true, "nobody": true, "gaxiom": true, "useret": true, "implements": true, "define": true, "transition": true,
 }
 
 var labelRe = regexp.MustCompile(`^\[([A-Za-z0-9,]*):([A-Za-z0-9_\-./]+)\]\s*`)
@@ -379,6 +380,15 @@ func (cs *Contracts) loadFile(path string, goFile bool) error {
 				return err
 			}
 			cur.UseRets = append(cur.UseRets, c)
+		case "transition":
+			if curLoop == nil {
+				return fail(fmt.Errorf("transition outside loop"))
+			}
+			c, err := mkClause("transition")
+			if err != nil {
+				return err
+			}
+			curLoop.Transitions = append(curLoop.Transitions, c)
 		case "requires", "ensures", "modifies", "use", "decreases", "invariant":
 			if cur == nil {
 				return fail(fmt.Errorf("%s outside func", kw))
@@ -458,6 +468,7 @@ func (fc *FuncContract) propsOf() map[string]bool {
 	add(fc.Ensures)
 	for _, l := range fc.Loops {
 		add(l.Invariants)
+		add(l.Transitions)
 		if l.Decreases != nil {
 			add([]*Clause{l.Decreases})
 		}
